@@ -941,6 +941,16 @@ fn gen_u256_edge(rng: &mut Rng) -> U256 {
     }
 }
 
+/// random value of exactly `bits` bits (1..=256)
+fn rand_bits(rng: &mut Rng, bits: u32) -> U256 {
+    let mut b = [0u8; 32];
+    for x in b.iter_mut() {
+        *x = rng.next() as u8;
+    }
+    let v = U256::from_big_endian(&b).unwrap() >> (256 - bits);
+    v | (U256::one() << (bits - 1))
+}
+
 fn gen_uops(out: &mut Out, rng: &mut Rng, k: u64) {
     out.begin_case("u256-ops");
     for _ in 0..600 * k {
@@ -982,24 +992,32 @@ fn gen_uops(out: &mut Out, rng: &mut Rng, k: u64) {
         op_ushift(out, "ushr", &a, kk);
     }
     out.begin_case("u256-gcd");
+    let (mut gcd_total, mut gcd_nontrivial) = (0u64, 0u64);
     for _ in 0..500 * k {
         // operands with a planted common factor (odd part and power of two), and unrelated ones
         let (a, b) = match rng.below(4) {
             0 => (gen_u256_edge(rng), gen_u256_edge(rng)),
             _ => {
-                let gbits = rng.range(1, 100);
-                let g = rand_u256(rng) >> (256 - gbits as u32).min(255);
-                let x = rand_u256(rng) >> (rng.range(100, 250) as u32);
-                let y = rand_u256(rng) >> (rng.range(100, 250) as u32);
+                // exact bit lengths: g·x·2^sh stays below 2^256, so the planted factor survives
+                let (gb, xb, yb) = (rng.range(1, 100) as u32, rng.range(1, 110) as u32, rng.range(1, 110) as u32);
+                let g = rand_bits(rng, gb);
+                let x = rand_bits(rng, xb);
+                let y = rand_bits(rng, yb);
                 let sh1 = rng.below(40) as u32;
-                let sh2 = rng.below(40) as u32;
+                let sh2 = if rng.chance(1, 3) { sh1 } else { rng.below(40) as u32 };
                 let a = quiet(|| (&g * &x) << sh1).unwrap_or_else(U256::one);
                 let b = quiet(|| (&g * &y) << sh2).unwrap_or_else(U256::one);
                 (a, b)
             }
         };
         op_u2(out, "ugcd", &a, &b);
+        gcd_total += 1;
+        if a.gcd(&b) > U256::one() {
+            gcd_nontrivial += 1;
+            out.count("ugcd-nontrivial");
+        }
     }
+    out.extra.insert("gcd_nontrivial_share_pct".into(), (gcd_nontrivial * 100 / gcd_total.max(1)).into());
     out.begin_case("rational-ops");
     for _ in 0..400 * k {
         // raw operands: small/large, sharing factors, zero numerators and (rarely) zero denominators
